@@ -171,7 +171,7 @@ func (c *Ctx) c06Sibling(fo *FO) {
 			if bfn, _ := info.Defs[bd.Name].(*types.Func); bfn == nil || c.isNewAPI(bfn) {
 				continue
 			}
-			if !frontendFiles(bd.Pos()) {
+			if !c.frontendFiles()(bd.Pos()) {
 				continue
 			}
 			ast.Inspect(bd.Body, func(x ast.Node) bool {
